@@ -179,7 +179,7 @@ sys.path.insert(0, %r); sys.path.insert(0, %r)
 import numpy, awkward as ak, vector
 vector.register_awkward()
 MODE = %r
-READ = [] if MODE == "ops" else ["x", "y", "rho", "phi", "z", "theta", "eta", "t", "tau", "px", "py", "pt", "pz", "E", "e", "energy", "M", "m", "mass", "mag", "p", "Et", "Mt", "tau2", "mass2", "t2", "energy2"]
+READ = [] if MODE in ("ops", "chain") else ["x", "y", "rho", "phi", "z", "theta", "eta", "t", "tau", "px", "py", "pt", "pz", "E", "e", "energy", "M", "m", "mass", "mag", "p", "Et", "Mt", "tau2", "mass2", "t2", "energy2"]
 SYN = {"x": ["px"], "y": ["py"], "rho": ["pt"], "z": ["pz"], "t": ["E", "e", "energy"], "tau": ["M", "m", "mass"]}
 vals = {"x": [3.0, -1.5, 0.25], "y": [4.0, 2.0, -0.5], "rho": [5.0, 2.5, 0.75], "phi": [0.3, -2.0, 1.1], "z": [1.0, -2.0, 0.5], "theta": [0.4, 2.0, 1.3],
         "eta": [0.5, -1.2, 2.0], "t": [20.0, 11.0, 7.5], "tau": [4.0, 0.25, 1.5]}
@@ -219,6 +219,8 @@ for az in (("x", "y"), ("rho", "phi")):
                     if dim == 4:
                         OPS += [("v.boostX(0.3)", lambda v: v.boostX(0.3)), ("v.to_xyzt()", lambda v: v.to_xyzt()), ("v.to_rhophietatau()", lambda v: v.to_rhophietatau()),
                                 ("v.to_beta3()", lambda v: v.to_beta3())]
+                    if MODE == "chain":
+                        OPS = []
                     if MODE == "ops":
                         OPS = [o for o in OPS if not o[0].startswith(("v.to_", "v.rotate", "v.boost"))]
                     elif syn not in ("px", "py", "pt", "pz", "E", "mass", "m"):
@@ -243,6 +245,53 @@ for az in (("x", "y"), ("rho", "phi")):
                                 continue
                             if any(abs(a_ - b_) > 1e-12 * max(1.0, abs(b_)) for a_, b_ in zip(got, want)):
                                 bad.append(f"{syn}: ({oname}).{rd} on a Momentum{dim}D array with raw fields {names} = {got}; with geometric fields {geo} it is {want}")
+                    # three-step: two chained operations (one that changes values or drops a dimension, then a conversion / re-embedding with a
+                    # keyword), then read: nothing stale may win over the fresh coordinate or the keyword value
+                    if MODE in ("all", "chain") and syn in ("px", "pz", "E", "mass"):
+                        P1 = [("v * 3", lambda v: v * 3), ("v.scale(-1.5)", lambda v: v.scale(-1.5)), ("v.rotateZ(0.3)", lambda v: v.rotateZ(0.3))]
+                        if dim == 4:
+                            P1 += [("v.boostX(0.3)", lambda v: v.boostX(0.3)), ("v.to_Vector3D()", lambda v: v.to_Vector3D()), ("v.to_xyzt()", lambda v: v.to_xyzt())]
+                        if dim >= 3:
+                            P1 += [("v.to_Vector2D()", lambda v: v.to_Vector2D())]
+                        P2 = [("to_Vector4D(mass=0.5)", lambda v: v.to_Vector4D(mass=0.5)), ("to_Vector4D(tau=0.25)", lambda v: v.to_Vector4D(tau=0.25)),
+                              ("to_Vector4D(E=30.0)", lambda v: v.to_Vector4D(E=30.0)), ("to_Vector4D(t=31.0)", lambda v: v.to_Vector4D(t=31.0)),
+                              ("to_Vector3D(pz=0.75)", lambda v: v.to_Vector3D(pz=0.75)), ("to_Vector3D(eta=0.3)", lambda v: v.to_Vector3D(eta=0.3)),
+                              ("to_ptphietamass()", lambda v: v.to_ptphietamass()), ("to_pxpypzmass()", lambda v: v.to_pxpypzmass()),
+                              ("to_pxpypzenergy()", lambda v: v.to_pxpypzenergy()), ("to_rhophietatau()", lambda v: v.to_rhophietatau()), ("to_xyzt()", lambda v: v.to_xyzt()),
+                              ("to_ptphietamass(mass=0.5)", lambda v: v.to_ptphietamass(mass=0.5)), ("to_pxpypzenergy(energy=30.0)", lambda v: v.to_pxpypzenergy(energy=30.0))]
+                        for o1, f1 in P1:
+                            try:
+                                r1, a1 = f1(ref), f1(arr)
+                            except Exception:
+                                continue
+                            d1r = 2 if isinstance(r1, vector.Vector2D) else 3 if isinstance(r1, vector.Vector3D) else 4
+                            d1a = 2 if isinstance(a1, vector.Vector2D) else 3 if isinstance(a1, vector.Vector3D) else 4 if isinstance(a1, vector.Vector4D) else 0
+                            if d1a != d1r:
+                                continue          # known finding awkward-raw-momentum-fields: the intermediate result already has the wrong dimension
+                            for o2, f2 in P2:
+                                try:
+                                    rr = f2(r1)
+                                except Exception:
+                                    continue        # not applicable to this dimension / keyword on the reference: not part of the probe
+                                try:
+                                    ra = f2(a1)
+                                except Exception as e:
+                                    bad.append(f"{syn}: {o1} then {o2} on Momentum{dim}D with raw fields {names} raises {type(e).__name__}: {str(e)[:60]} (works with geometric fields)")
+                                    continue
+                                dr = 2 if isinstance(rr, vector.Vector2D) else 3 if isinstance(rr, vector.Vector3D) else 4
+                                da = 2 if isinstance(ra, vector.Vector2D) else 3 if isinstance(ra, vector.Vector3D) else 4 if isinstance(ra, vector.Vector4D) else 0
+                                if da != dr:
+                                    continue      # known finding awkward-raw-momentum-fields (dimension decided from literal field names)
+                                for rd in ["x", "y"] + (["z"] if dr >= 3 else []) + (["t", "tau", "E", "mass"] if dr == 4 else []):
+                                    n += 1
+                                    try:
+                                        want = ak.to_list(getattr(rr, rd))
+                                        got = ak.to_list(getattr(ra, rd))
+                                    except Exception as e:
+                                        bad.append(f"{syn}: ({o1} then {o2}).{rd} on Momentum{dim}D with raw fields {names} raises {type(e).__name__}")
+                                        continue
+                                    if any(abs(a_ - b_) > 1e-12 * max(1.0, abs(b_)) for a_, b_ in zip(got, want)):
+                                        bad.append(f"{syn}: ({o1} then {o2}).{rd} on a Momentum{dim}D array with raw fields {names} = {got}; with geometric fields {geo} it is {want}")
 print("JSON" + json.dumps([bad, n]))
 """
 RAW_REPLAY = ("import sys; sys.path.insert(0, %r); sys.path.insert(0, %r)\nfrom harness import c14\nbad, n = c14.raw_awkward_spellings()\nassert not bad, bad[0]\n"
